@@ -749,6 +749,46 @@ fn gen_fs(round: u64, r: &mut Rng, out: &mut Out) -> (String, Vec<String>) {
     (format!("pw={}", dev_pw), ops)
 }
 
+const RESP_HOWS: [&str; 11] = ["rnd", "rrand", "ssid", "iter", "salt", "salt15", "salt33", "salt0", "noparams", "status", "opcode"];
+const PAKE2_HOWS: [&str; 7] = ["pb", "cb", "cbzero", "short", "pbinf", "status", "opcode"];
+const STATUS_HOWS: [&str; 3] = ["fail", "parse", "opcode"];
+
+/// THE INITIATOR: the real `PaseInitiator::perform` against the real responder while PBKDFParamResponse / Pake2 /
+/// the final StatusReport are modified in flight (every structured modification enumerated by `round`, plus single-bit
+/// flips), with the right and with a wrong passcode; every case ends with an untouched handshake that must succeed
+fn gen_init(round: u64, r: &mut Rng, out: &mut Out) -> (String, Vec<String>) {
+    let dev_pw = *r.pick(&[20202021u64, 12345679]);
+    let mut ops: Vec<String> = vec!["open t=900".to_string()];
+    let all: Vec<String> = RESP_HOWS
+        .iter()
+        .map(|h| format!("resp:{}", h))
+        .chain(PAKE2_HOWS.iter().map(|h| format!("pake2:{}", h)))
+        .chain(STATUS_HOWS.iter().map(|h| format!("status:{}", h)))
+        .collect();
+    for j in 0..4u64 {
+        let pick = (round * 4 + j) as usize;
+        let mutation = if r.chance(1, 4) {
+            let target = *r.pick(&["resp", "resp", "pake2", "pake2", "status"]);
+            format!("{}:bit{}", target, r.below(2048))
+        } else {
+            all[pick % all.len()].clone()
+        };
+        out.stat(&format!("init_mut_{}", mutation.split(':').next().unwrap_or("?")), 1);
+        let ipw = if r.chance(1, 6) { dev_pw - 1 } else { dev_pw };
+        ops.push(format!("hs ipw={} mut={}", ipw, mutation));
+    }
+    if r.chance(1, 2) {
+        ops.push(format!("hs ipw={}", dev_pw - 1));
+    }
+    if r.chance(1, 5) {
+        ops.push("revoke".into());
+        ops.push(format!("hs ipw={}", dev_pw));
+        ops.push("open t=300".into());
+    }
+    ops.push(format!("hs ipw={}", dev_pw));
+    (format!("init pw={}", dev_pw), ops)
+}
+
 /// the honest handshake with one payload bit flipped in flight
 fn gen_tamper(r: &mut Rng, out: &mut Out) -> (String, Vec<String>) {
     let dev_pw = *r.pick(&[20202021u64, 12345679]);
@@ -788,6 +828,12 @@ pub fn gen(a: &Args, run: &mut dyn FnMut(&mut Out, &Case)) -> String {
         let mut cr = r.fork();
         let (kind, ops) = gen_fs(id, &mut cr, &mut out);
         run(&mut out, &Case { id: 110_000 + id, kind, ops });
+    }
+    let n_init = if a.thorough { 420 } else { 63 };
+    for id in 0..n_init {
+        let mut cr = r.fork();
+        let (kind, ops) = gen_init(id, &mut cr, &mut out);
+        run(&mut out, &Case { id: 120_000 + id, kind, ops });
     }
     // tamper stream: single-bit mutations of the handshake messages in flight (oracle only)
     let n_tamper = if a.thorough { 4000 } else { 300 };
